@@ -115,7 +115,8 @@ func (sc *Scen) randomPlan() Plan {
 		}
 		b := a + win - 1 + uint32(r.Intn(3))
 		p.Pay = []*string{nil}
-		p.Height = []*uint32{u32p(a + win - 1), u32p(b)}
+		// (a third answer for code that polls the height once more before or between the attempts)
+		p.Height = []*uint32{u32p(a + win - 1), u32p(b), u32p(b + uint32(r.Intn(2)))}
 		return p
 	}
 	switch r.Intn(12) {
@@ -686,7 +687,8 @@ func runScenario(seed uint64, idx int, dbpath string, focus string) (sc *Scen, e
 		sc.role, sc.chain, sc.clean = d.role, d.chain, true
 		env.SwapsAllowed, env.PeerAllowed, env.PeerSuspicious, env.LiquidEnabled, env.BitcoinEnabled, env.MinAmountMsat = true, true, false, true, true, 100000*1000
 		for _, st := range d.steps {
-			if st != "start" && st != "request" && sc.id == nil && !extStepRunsFresh(st) && !isFreshExtraStep(st) {
+			base := st[strings.LastIndex(st, ":")+1:] // "height=fail:start" creates the swap like "start"
+			if base != "start" && base != "request" && sc.id == nil && !extStepRunsFresh(st) && !isFreshExtraStep(st) {
 				break
 			}
 			sc.stepNamed(st)
